@@ -774,6 +774,9 @@ func (d *Data) GobDecode(b []byte) error {
 	if err := dec.Decode(&(d.tags)); err != nil {
 		dvid.Infof("Serialization of data %q had no tags.  Skipping reading of tags.\n", d.name)
 	}
+	if err := dec.Decode(&(d.deleted)); err != nil {
+		d.deleted = false // written before the deletion mark was persisted
+	}
 	return nil
 }
 
@@ -818,6 +821,10 @@ func (d *Data) GobEncode() ([]byte, error) {
 		return nil, err
 	}
 	if err := enc.Encode(d.tags); err != nil {
+		return nil, err
+	}
+	// The mark of a deletion in progress, so that the loader can restart it after a crash.
+	if err := enc.Encode(d.deleted); err != nil {
 		return nil, err
 	}
 	return buf.Bytes(), nil
